@@ -1,5 +1,5 @@
 (* Extraction of the C01 generator-shape model to OCaml (ExtrOcamlBasic only). *)
 From Coq Require Import ZArith ExtrOcamlBasic.
-Require Import ZV.Model.GenShape ZV.Model.CallCheck.
+Require Import ZV.Model.GenShape ZV.Model.CallCheck ZV.Model.Destructure.
 Extraction "model.ml" Z.add Z.mul Z.opp Z.div_eucl Z.of_nat Z.to_nat Z.compare
-  load_deferred size call_check.
+  load_deferred size call_check assign_arrays bindlist.
